@@ -68,7 +68,7 @@ else:
         kind = KINDS[k % len(KINDS)]
         n = rng.choice([0, 1, 2, 3, 15, 16, 17, 31, 32, 33]) if rng.chance(1, 5) else rng.range(4, 220 if ck.thorough() else 140)
         strs = gen_strings(rng, kind, n)
-        params = rng.choice(["T", "T", "U", "V"]); workers = rng.range(1, 4); lcp = rng.below(2); st = rng.choice(["c", "c", "s"])
+        params = rng.choice(["T", "T", "U", "V", "E"]); workers = rng.range(1, 4); lcp = rng.below(2); st = rng.choice(["c", "c", "s"])
         nsched = 6 if ck.thorough() else 3
         cases.append("g%d_%s %s %d %d %s %d %d %s" % (k, kind, params, workers, lcp, st, nsched, rng.below(1 << 30), ",".join(hx(s) for s in strs) if strs else "-"))
         dist[kind] = dist.get(kind, 0) + 1
@@ -209,7 +209,7 @@ if ck.violations == 0 and exe is not None:
             kind = KINDS[k % len(KINDS)]
             n = rng.choice([150, 400, 900, 2500])
             strs = gen_strings(rng, kind, n)
-            tcases.append("ts%d_%s %s 0 %d %s %d 1 %s" % (k, kind, rng.choice(["T", "U", "V"]), k % 2, rng.choice(["c", "s"]), 3 if ck.thorough() else 2, ",".join(hx(x) for x in strs) if strs else "-"))
+            tcases.append("ts%d_%s %s 0 %d %s %d 1 %s" % (k, kind, rng.choice(["T", "U", "V", "E"]), k % 2, rng.choice(["c", "s"]), 3 if ck.thorough() else 2, ",".join(hx(x) for x in strs) if strs else "-"))
         tf = os.path.join(ck.scratch, "tsan_cases.txt"); open(tf, "w").write("\n".join(tcases) + "\n")
         rct, outt = verif.sh([exe_tsan, tf], timeout=2400, env=dict(os.environ, TSAN_OPTIONS="halt_on_error=0 report_signal_unsafe=0 history_size=4"))
         tsan_runs = sum(1 for l in outt.splitlines() if l.startswith("R "))
